@@ -5,7 +5,8 @@
 (* driver in an adversarial order, a Byzantine validator played by the       *)
 (* driver) is explained step by step by the KardiaNode handlers.             *)
 (*                                                                         *)
-(* trace.ndjson: line 1 = header [n, power, prop, me, invalid]; then one     *)
+(* trace.ndjson: line 1 = header [n, power (per height), prop, me, invalid,   *)
+(* wait]; then one                                                          *)
 (* line per handler call of some node, in the order the single-threaded      *)
 (* scheduler made them:                                                      *)
 (*   [n, k = "msg"|"timeout", m | ti, newBid, post, out, touts]              *)
@@ -31,7 +32,7 @@ VARIABLES st,         \* st[n]: KardiaNode state of real node n
           hlog        \* hlog[n]: the inputs node n handled at its current height = its WAL after the last #ENDHEIGHT
 vars == <<st, l, signed, seen, committed, hbase, hlog>>
 
-K == INSTANCE KardiaNode WITH N <- Len(Hdr.power), Power <- Hdr.power, ProposerOf <- Hdr.prop,
+K == INSTANCE KardiaNode WITH N <- Len(Hdr.power[1]), PowerAt <- Hdr.power, ProposerOf <- Hdr.prop,
                               InvalidBids <- {Hdr.invalid[i] : i \in 1..Len(Hdr.invalid)},
                               SkipTimeoutCommit <- FALSE, WaitForTxs <- Hdr.wait
 
@@ -93,7 +94,7 @@ Replay(s, log, k, outs) ==
   ELSE LET res == Handle(s, log[k]) IN Replay(res.s, log, k + 1, outs \o MsgOuts(res.out))
 SeenCommitOf(s) ==
   IF ~s.hasLast THEN s
-  ELSE LET cb == K!Maj(s.lastCommit)
+  ELSE LET cb == K!Maj(s.h - 1, s.lastCommit)
        IN [s EXCEPT !.lastCommit = [i \in DOMAIN s.lastCommit |->
                                       IF s.lastCommit[i] \in {cb, K!NilB} THEN s.lastCommit[i] ELSE K!NoB]]
 Recovered(n) == Replay(SeenCommitOf(hbase[n]), hlog[n], 1, <<>>)
